@@ -216,7 +216,7 @@ var recognisers = []recogniser{
 func known(c *Case, vars *ir.Value, lits map[string]*ir.Value, where string, v pbt.Verdict) pbt.Verdict {
 	for _, r := range recognisers {
 		for _, w := range r.where {
-			if w == where && r.match(c, vars, v.Msg) {
+			if w == where && pbt.IsKnown(r.id) && r.match(c, vars, v.Msg) {
 				return pbt.BadKnown(r.id, "%s", v.Msg)
 			}
 		}
